@@ -508,7 +508,8 @@ pub fn build(vol: &Value) -> Result<Image, String> {
     let bks = u(vol, "bks", 6);
     if ft == 32 {
         b[36..40].copy_from_slice(&(spf as u32).to_le_bytes());
-        let extf: u16 = if mirror { 0 } else { 0x80 | (active as u16 & 0x0F) };
+        // with mirroring enabled the active-FAT nibble is meaningless (and may hold a stale value)
+        let extf: u16 = if mirror { u(vol, "stale_active", 0) as u16 & 0x0F } else { 0x80 | (active as u16 & 0x0F) };
         b[40..42].copy_from_slice(&extf.to_le_bytes());
         b[44..48].copy_from_slice(&(rootc as u32).to_le_bytes());
         b[48..50].copy_from_slice(&(fis as u16).to_le_bytes());
